@@ -679,6 +679,11 @@ fn run_op(w: &mut World, op: &Val) -> Val {
                 Err(e) => t("err", vec![err_val(&e)]),
             }
         }
+        // ---- C16: let real time pass between two calls (idle time-out)
+        "sleep_ms" => {
+            std::thread::sleep(Duration::from_millis(a[0].int() as u64));
+            t("ok", vec![])
+        }
         // ---- C18: keep results alive across moves, other work and allocation churn
         "churn" => {
             let n = a[0].int() as usize;
